@@ -124,9 +124,40 @@ class C17(Prop):
         return ['proto=' + case['proto'] + ('+auth' if case['user'] is not None else ''), 'res=' + str(obs.get('res'))]
 
     def extra_checks(self, ctx):
+        from harness.core import Failure
+        out = []
+        # a proxy name with several addresses: the handshake with each address is a handshake of its own - its outcome
+        # depends only on the bytes THAT connection delivered, whatever went wrong with the addresses tried before
+        n = 0
+        for b in base_cases():
+            g = grant(b)
+            refusal = bytes([0, 91, 0, 0, 0, 0, 0, 0]) if b['proto'] in ('4', '4a') else g[:len(g) - 10] + bytes([5, 2, 0, 1, 0, 0, 0, 0, 0, 0])
+            firsts = [[b''], [g[:1]], [g[:3]], [g[:len(g) - 1]], [refusal], [b'\xff\xff\xff\xff\xff\xff\xff\xff\xff\xff\xff\xff'],
+                      [g[:2], refusal], [b'', g[:len(g) - 2], g[:1]]]
+            for first in firsts:
+                for stream, ks in ((g + b'GET', []), (g + b'GET', [1] * 40), (refusal, []), (g[:len(g) - 3], [2, 1])):
+                    case = dict(b, kind='connect_one', stream=list(stream), ks=ks, first=[list(x) for x in first])
+                    alone = sc.run_socks(dict(b, kind='handshake', stream=list(stream), ks=list(ks)))
+                    obs = sc.run_connect_one(case, first)
+                    n += 1
+                    cl = None
+                    if obs['connections'] != len(first) + 1:
+                        cl = 'not every address of the proxy was tried after the earlier ones failed'
+                    elif obs['res'] != alone['res']:
+                        cl = (f"the handshake with the proxy's next address ended as {obs['res']}, the same reply bytes on a "
+                              f"connection of their own mean {alone['res']} (state carried over from the failed address)")
+                    elif (obs['sent'], obs['requested'], obs['left']) != (alone['sent'], alone['requested'], alone['left']):
+                        cl = ('the handshake with the next address sent / read other bytes than a handshake of its own does '
+                              '(state carried over from the failed address)')
+                    if cl:
+                        out.append(Failure(case, obs, cl))
+                        break
+                if len(out) >= 2:
+                    break
+        ctx['notes'].append(f'_connect_one over a proxy name with 2-4 addresses, earlier addresses failing by EOF / refusal / garbage: {n} runs compared with the stand-alone handshake')
         ctx['exhaustive'].append(f'{getattr(self, "_exhaustive", 0)} cases: all 256 values of each decision byte, '
                                  'bound-address lengths 0..255, EOF at every offset, per protocol variant')
-        return []
+        return out
 
 
 PROP = C17()
